@@ -172,7 +172,7 @@ CHECKS["C07"] = dict(
          "TEXT data, negative indices and growing vertices are not modelled. Trusted: TLC, harness/checks/C07.py, align_cover.py.",
 )
 CHECKS["C19"] = dict(
-    engine="spec/reader", category="fault_enumeration",
+    engine="spec/reader", category="model_checking",
     technique="TLA+ spec ReaderFaults.tla: geoh5 file at the item level (every attribute, link and dataset of project, containers, "
               "entities, property-group blocks and types), build histories -> DeleteItem(i) -> Open with a model of the reader; TLC "
               "checks the item model (every item classified from the format documents, Describes/Bystanders sane) and PropertyHolds; "
